@@ -240,3 +240,19 @@ Proof.
   eexists. split; [vm_compute; reflexivity|]. split; [vm_compute; reflexivity|]. split; [reflexivity|].
   vm_compute. reflexivity.
 Qed.
+
+(* non-vacuity example used by Properties/C14.v *)
+Lemma seal_example :
+  let keccak := fun _ : bytes => repeat x11 32 in
+  let argon := fun _ : bytes => x00 :: x02 :: zeros 30 in    (* result = 2^241 *)
+  let hm := fun (_ : Z) (_ : bytes) (_ : Z) => @None (bytes * bytes) in
+  let h d := {| s_parent := zeros 32; s_uncle := zeros 32; s_coinbase := zeros 20; s_root := zeros 32; s_txhash := zeros 32;
+                s_rcpt := zeros 32; s_bloom := zeros 256; s_diff := d; s_number := 22800; s_gas_limit := 4712388;
+                s_gas_used := 21000; s_time := 1530000000; s_extra := [x61]; s_mix := zeros 32; s_nonce := 77; s_version := 2 |} in
+  verify_seal keccak argon argon argon hm (h 1) = SOk tt /\
+  verify_seal keccak argon argon argon hm (h (2 ^ 15)) = SOk tt /\
+  verify_seal keccak argon argon argon hm (h (2 ^ 15 + 1)) = SErr SPoW /\
+  verify_seal keccak argon argon argon hm (h 0) = SErr SInvalidDifficulty /\
+  map (block_version {| chain_id := testnet2_chain_id; hf := testnet2_hf |}) [7; 8; 18; 19] = [2; 3; 3; 4] /\
+  map (block_version {| chain_id := mainnet_chain_id; hf := mainnet_hf |}) [22799; 22800] = [1; 2].
+Proof. vm_compute. repeat split; reflexivity. Qed.
